@@ -9,6 +9,9 @@
    generates the testify mock (unroll-variadic true/false/unset through template-data), a Go driver
    (drivers/testifydrv/rt + one generated adapter per class) is linked against ALL fresh mocks and replays the
    behaviours with a recording TestingT; each step logs reply | panic | failnow, callbacks and Errorf.
+   Every class is mocked three times: into an output file of its own, and into two SHARED output files together
+   with the other classes (different template-data per mock, interleaved by unroll setting; one file in that
+   name order, one in the reverse order), so per-file template state leaking between mocks is observable.
 3. Python compares step by step with the exported expectation; the whole op log, plus long random histories
    that TLC did not produce, is validated by TLC against spec/TestifyMockTrace.tla (contract acceptance).
    Verdicts come from TLC's judgement of real replies; the Python comparison must agree (self-consistency).
@@ -90,7 +93,8 @@ def split(xs, n):
 
 
 # --------------------------------------------------------------------------------------------- world
-def iface_src(classes):
+def iface_src(classes, names=None):
+    """names: optional {class id: interface name} (default I_<id>)"""
     out = ["package src", "", 'import "example.com/w/rt"', "", "var _ rt.T", ""]
     for c in classes:
         g = (lambda k: "K" if (c.get("gen") and k == "string") else GO[k])
@@ -99,7 +103,8 @@ def iface_src(classes):
             ps.append(f"{c['names'][-1]} ...{g(c['vk'])}")
         rs = [g(k) for k in c["rk"]]
         res = "" if not rs else (" " + rs[0] if len(rs) == 1 else " (" + ", ".join(rs) + ")")
-        out.append(f"type I_{c['id']}{'[K any]' if c.get('gen') else ''} interface {{")
+        iname = (names or {}).get(c["id"], "I_" + c["id"])
+        out.append(f"type {iname}{'[K any]' if c.get('gen') else ''} interface {{")
         for m in METHODS[1:c["nm"] + 1]:
             out.append(f"\t{m}({', '.join(ps)}){res}")
         out.append("}")
@@ -117,8 +122,48 @@ def mockery_conf(classes):
     return {"template": "testify", "formatter": "gofmt", "packages": {MOD + "/src": {"interfaces": ifs}}}
 
 
-def gen_adapter(c):
+def shared_layouts(alive, group=40):
+    """Several classes' interfaces with DIFFERENT template-data rendered into ONE output file, in both name
+    orders.  The classes are interleaved by their unroll-variadic setting (true, false, unset, true, ...), so
+    that within a file every setting both precedes and follows every other one; layout A<g> names the
+    interfaces in that order, layout B<g> in the reverse order (mockery renders a file's mocks sorted by
+    interface name).  Returns {layout: {class id: interface name}}."""
+    by = {"true": [], "false": [], "unset": []}
+    for c in sorted(alive, key=lambda c: c["id"]):
+        by[c["unroll"]].append(c)
+    seq = []
+    while any(by.values()):
+        for k in ("true", "false", "unset"):
+            if by[k]:
+                seq.append(by[k].pop(0))
+    out = {}
+    for g in range(0, len(seq), group):
+        part = seq[g:g + group]
+        gi = g // group
+        out[f"A{gi}"] = {c["id"]: f"A{gi}x{r:03d}_{c['id']}" for r, c in enumerate(part)}
+        out[f"B{gi}"] = {c["id"]: f"B{gi}x{len(part) - 1 - r:03d}_{c['id']}" for r, c in enumerate(part)}
+    return out
+
+
+def shared_conf(classes, layouts):
+    byid = {c["id"]: c for c in classes}
+    ifs = {}
+    for lay, names in layouts.items():
+        for cid, iname in names.items():
+            conf = {"dir": f"mocks/sh{lay}", "pkgname": "sh" + lay, "structname": "Mock{{.InterfaceName}}", "filename": "mocks.go"}
+            if byid[cid]["unroll"] in ("true", "false"):
+                conf["template-data"] = {"unroll-variadic": byid[cid]["unroll"] == "true"}
+            ifs[iname] = {"config": conf}
+    return {"template": "testify", "formatter": "gofmt", "packages": {MOD + "/srcsh": {"interfaces": ifs}}}
+
+
+def gen_adapter(c, layout="", iname=None):
     cid, pk, vk, rk = c["id"], c["pk"], c["vk"], c["rk"]
+    regid = cid
+    if layout:
+        regid = cid + "@" + layout
+        c = dict(c, id=cid + "_" + layout)
+        cid = c["id"]
     np_, nr, var = len(pk), len(rk), c["vk"] != "none"
     A = "ad_" + cid
     inst = "[string]" if c.get("gen") else ""
@@ -131,12 +176,14 @@ def gen_adapter(c):
     absf = "[]string{" + ", ".join(f"rt.A_{k}({i}, p{i})" for i, k in enumerate(pk)) + "}"
     absv = f"absv_{cid}(pv)" if var else "nil"
     retvals = ", ".join(f"rt.C_{k}({20 + i}, op.Rets[{i}])" for i, k in enumerate(rk))
-    o = ["// Code generated by /verif/checks/c03.py for signature class " + cid + "; DO NOT EDIT.", "package adapters", "",
-         "import (", '\t"example.com/w/rt"', f'\tmk "example.com/w/mocks/{cid}"']
+    mockpkg = f"sh{layout}" if layout else cid
+    mockty = f"Mock{iname}" if layout else "MockI"
+    o = ["// Code generated by /verif/checks/c03.py for signature class " + regid + "; DO NOT EDIT.", "package adapters", "",
+         "import (", '\t"example.com/w/rt"', f'\tmk "example.com/w/mocks/{mockpkg}"']
     if var:
         o.append('\t"github.com/stretchr/testify/mock"')
-    o += [")", "", f"type {A} struct {{", f"\tm   *mk.MockI{inst}", "\tlog *rt.Log", "}", "",
-          f"func init() {{\n\trt.Register({json.dumps(cid)}, func(t *rt.RecT, log *rt.Log) rt.Adapter {{ return &{A}{{m: mk.NewMockI{inst}(t), log: log}} }})\n}}", ""]
+    o += [")", "", f"type {A} struct {{", f"\tm   *mk.{mockty}{inst}", "\tlog *rt.Log", "}", "",
+          f"func init() {{\n\trt.Register({json.dumps(regid)}, func(t *rt.RecT, log *rt.Log) rt.Adapter {{ return &{A}{{m: mk.New{mockty}{inst}(t), log: log}} }})\n}}", ""]
     if var:
         o += [f"func absv_{cid}(pv []{GO[vk]}) []string {{", "\tout := []string{}", "\tfor _, e := range pv {",
               f"\t\tout = append(out, rt.A_{vk}(9, e))", "\t}", "\treturn out", "}", "",
@@ -255,14 +302,54 @@ def build_world(ctx, classes):
                 ctx.violation(sig, {"class": c, "interface": iface_src([c]), "compile_errors": errs,
                                     "mock": (w / "mocks" / c["id"] / "mock.go").read_text()[:6000]})
         alive = [c for c in alive if c["id"] not in bad]
+    # ---- the same classes again, many per output file (per-file template state must not leak between mocks)
+    layouts = shared_layouts(alive)
+    (w / "srcsh").mkdir()
+    src = iface_src([], None).replace("package src", "package srcsh")
+    for lay, names in layouts.items():
+        src += "\n".join(iface_src([c for c in alive if c["id"] in names], names).split("\n")[6:])
+    (w / "srcsh" / "src.go").write_text(src)
+    (w / ".mockery.yml").write_text(json.dumps(shared_conf(alive, layouts)))
+    t1 = time.time()
+    res = ctx.run_mockery(w, timeout=300, trace=False)
+    ctx.timing["mockery_shared"] = round(time.time() - t1, 1)
+    if res.code != 0:
+        ctx.violation({"kind": "shared-file-mocks-not-generated"},
+                      {"layouts": layouts, "mockery": res.brief(),
+                       "why": "every one of these interfaces is mocked fine into a file of its own, but not when they share output files"})
+        layouts = {}
+    else:
+        code, out, err = ctx.go(w, "build", *[f"./mocks/sh{lay}" for lay in sorted(layouts)], timeout=900)
+        if code != 0:
+            bad = set(re.findall(r"^mocks/sh([AB]\d+)/mocks\.go:\d+", err, flags=re.M))
+            if not bad:
+                raise MachineryError("go build of the shared-file mocks failed without a locatable package:\n" + err[-1500:])
+            for lay in sorted(bad):
+                errs = [ln for ln in err.splitlines() if ln.startswith(f"mocks/sh{lay}/")][:6]
+                ctx.violation({"kind": "shared-file-mocks-do-not-compile", "order": lay[0]},
+                              {"layout": layouts[lay], "compile_errors": errs,
+                               "why": "each mock compiles in a file of its own; the shared output file does not"})
+                del layouts[lay]
     (w / "adapters").mkdir()
     for c in alive:
         (w / "adapters" / f"ad_{c['id']}.go").write_text(gen_adapter(c))
+    for lay, names in layouts.items():
+        for c in alive:
+            if c["id"] in names:
+                (w / "adapters" / f"ad_{c['id']}_{lay}.go").write_text(gen_adapter(c, lay, names[c["id"]]))
+    ctx.layouts = layouts
     for attempt in range(3):
         code, out, err = ctx.go(w, "build", "-o", "drv", ".", timeout=900)
         if code == 0:
             break
-        bad = set(re.findall(r"^adapters/ad_([A-Za-z0-9]+)\.go:\d+", err, flags=re.M))
+        badfiles = set(re.findall(r"^adapters/(ad_[A-Za-z0-9_]+)\.go:\d+", err, flags=re.M))
+        for bf in badfiles:
+            (w / "adapters" / f"{bf}.go").unlink(missing_ok=True)
+        bad = {bf[3:].split("_")[0] for bf in badfiles}
+        for lay in list(ctx.layouts):
+            for cid in list(ctx.layouts[lay]):
+                if f"ad_{cid}_{lay}" in badfiles or cid in {bf[3:] for bf in badfiles}:
+                    del ctx.layouts[lay][cid]
         if not bad or attempt == 2:
             raise MachineryError("building the driver failed:\n" + err[-2500:])
         # the adapter uses only the documented typed API (EXPECT().M(...).Run/Return/RunAndReturn/Call.Return/Once/Times)
@@ -271,8 +358,7 @@ def build_world(ctx, classes):
                 errs = [ln for ln in err.splitlines() if ln.startswith(f"adapters/ad_{c['id']}.go")][:4]
                 ctx.violation({"kind": "mock-api-mismatch", **cls_sig(c)},
                               {"class": c, "compile_errors": errs, "why": "the generated mock does not offer the documented typed expecter API"})
-                (w / "adapters" / f"ad_{c['id']}.go").unlink()
-        alive = [c for c in alive if c["id"] not in bad]
+        alive = [c for c in alive if c["id"] not in {bf[3:] for bf in badfiles}]
     ctx.timing["go_build"] = round(time.time() - t0, 1)
     return w / "drv", alive, w
 
@@ -386,7 +472,7 @@ def random_history(rng, c, max_ops, max_exp):
 # --------------------------------------------------------------------------------------------- replay
 def run_driver(ctx, drv, cases, tag):
     d = ctx.mkdir("replay-" + tag)
-    inp = {"cases": [{"class": c["class"], "ops": [{k: v for k, v in o.items() if k in ("op", "m", "ms", "style", "rets", "rem", "f", "v", "form")}
+    inp = {"cases": [{"class": c["class"] + ("@" + c["layout"] if c.get("layout") else ""), "ops": [{k: v for k, v in o.items() if k in ("op", "m", "ms", "style", "rets", "rem", "f", "v", "form")}
                                                     for o in c["ops"]]} for c in cases]}
     (d / "cases.json").write_text(json.dumps(inp))
     try:
@@ -610,6 +696,8 @@ def run(ctx):
         ctx.cov["transitions"] += r.generated
         cs = parse_prints(r.text, "CASE")
         modes[kind] = modes.get(kind, 0) + len(cs)
+        for c in cs:
+            c["mode"] = kind
         cases += cs
         if thorough and r.cfg == "single0":
             z = [ln for ln in r.coverage_zero() if re.search(r"<(Expect|Call|Cleanup|Init) ", ln)]
@@ -653,8 +741,17 @@ def run(ctx):
 
     # ------------------------------------------------------------ 4. replay on the real mocks
     live = [c for c in cases if c["class"] in alive_ids]
+    # the shared-file mocks get every behaviour that exercises the template (single-expectation mode, simulated and
+    # random histories); the pair / wide modes are about testify's ordering and run on the own-file mocks only
+    shared = []
+    for lay, names in sorted(ctx.layouts.items()):
+        for c in live + rcases:
+            if c["class"] in names and (c.get("random") or c.get("mode") in ("single", "sim")):
+                shared.append(dict(c, layout=lay))
+    if not shared and not ctx.violations:
+        raise MachineryError("no behaviour replayed on shared-file mocks")
     t0 = time.time()
-    allc = live + rcases
+    allc = live + rcases + shared
     per = run_driver(ctx, drv, allc, "all")
     ctx.timing["driver"] = round(time.time() - t0, 1)
     ctx.cov["evaluations"] += len(allc)
@@ -702,7 +799,8 @@ def run(ctx):
         chosen = list(range(len(allc)))
     else:
         bad_cases = {ci for ci, _ in py_bad}
-        chosen = [ci for ci, c in enumerate(allc) if c.get("random") or ci in bad_cases or ctx.rng.random() < 0.2]
+        chosen = [ci for ci, c in enumerate(allc) if c.get("random") or ci in bad_cases
+                  or ctx.rng.random() < (0.05 if c.get("layout") else 0.2)]
     sub = [allc[ci] for ci in chosen]
     evs = trace_events(sub, [per[ci] for ci in chosen], byid)
     for e in evs:
@@ -742,7 +840,9 @@ def run(ctx):
                    "dev": m["dev"], "as_predicted": reply_ok(m["impl"], got), **cls_sig(k)}
         else:
             sig = {"kind": "cleanup-mismatch", "op": "cleanup", "expected": m["expect"], "observed": got["reported"], **cls_sig(k)}
-        detail = {"class": k, "interface": iface_src([k]), "history": [{x: y for x, y in q.items() if x not in ("impl",)} for q in c["ops"][:si + 1]],
+        sig["layout"] = "shared-file" if c.get("layout") else "own-file"
+        detail = {"class": k, "interface": iface_src([k]), "layout": c.get("layout", "own file"),
+                  "shared_file_order": sorted(ctx.layouts.get(c.get("layout"), {}).values()), "history": [{x: y for x, y in q.items() if x not in ("impl",)} for q in c["ops"][:si + 1]],
                   "step": si, "contract_expects": m["expect"], "code_shaped_model_predicts": m["impl"], "real_mock_did": got,
                   "raw": per[ci][si].get("reply"), "source": "random history" if c.get("random") else "TLC-exported transition",
                   "how": "bin/check C03 regenerates the mock for this class with the working tree's mockery and replays the history"}
@@ -764,7 +864,8 @@ def run(ctx):
     ctx.cov["rule"] = ("every Call/Cleanup transition TLC generated on TestifyMock.tla (one representative history each, prefixes merged) "
                        "+ seeded random histories; non-trivial = at least two operations before cleanup")
     ctx.cov.update({"signature_classes": len(classes), "classes_replayed": len(alive), "tlc_exported_transitions": exported,
-                    "behaviours_replayed": len(live), "random_histories": len(rcases), "steps_judged_by_tlc": steps,
+                    "behaviours_replayed": len(live), "random_histories": len(rcases), "behaviours_replayed_on_shared_file_mocks": len(shared),
+                    "shared_files": {lay: len(n) for lay, n in ctx.layouts.items()}, "steps_judged_by_tlc": steps,
                     "trace_events_consumed": consumed, "replies_rejected": len(verdicts), "exported_by_mode": modes,
                     "vacuity": guard, "impl_drift_steps": drift, "setup_errors": setup_errors, "timing_s": ctx.timing})
     pick = [c for c in live if any(o["op"] == "call" and o["expect"]["kind"] == "values" and o["expect"]["cbs"] for o in c["ops"])]
@@ -785,16 +886,25 @@ def replay(ctx):
     replay the recorded history, let the contract (TLC, TestifyMockTrace) judge the real replies."""
     rec = json.loads(open(ctx.replay).read())
     det = rec["detail"]
+    if "class" not in det:
+        raise MachineryError("replay file records a file-level finding (shared output file): run the tier again instead")
     k = det["class"]
-    byid = {k["id"]: k}
     ctx.timing = {}
+    # the whole class set of the recorded tier is materialised again: a shared-file behaviour depends on its neighbours
+    base = "ThoroughClasses" if rec.get("tier") == "thorough" else "QuickClasses"
+    r0 = run_tlc(ctx, "classes", "TestifyMockMC", cfg_text("TestifyMock_quick.cfg", Classes="<- " + base, MaxExp="= 0", MaxCalls="= 0"), timeout=120)
+    byid = {c["id"]: c for c in parse_prints(r0.text, "CLASS")}
+    byid[k["id"]] = k
     ctx.mockery()
-    drv, alive, _ = build_world(ctx, [k])
-    if not alive:
+    drv, alive, _ = build_world(ctx, [byid[i] for i in sorted(byid)])
+    if k["id"] not in {c["id"] for c in alive}:
         return {"level": "model_checking", "exhaustive": False}       # the violation (not generated / does not compile) is recorded
     if "history" not in det:
         raise MachineryError("replay file has no history (class-level finding): it compiled this time")
     case = {"class": k["id"], "ops": det["history"], "random": True}
+    lay = det.get("layout")
+    if lay in ctx.layouts and k["id"] in ctx.layouts[lay]:
+        case["layout"] = lay
     per = run_driver(ctx, drv, [case], "replay")
     evs = trace_events([case], per, byid)
     mism, _ = validate_chunks(ctx, evs, "replay", 1)
